@@ -1797,7 +1797,7 @@ def real_samples(
     # Using unique because logspace produces repeated subnormals when
     # size is large
     r = numpy.concatenate(parts)
-    return numpy.unique(r) if unique else r
+    return numpy.unique(r) if unique else numpy.sort(r)
 
 
 def periodic_samples(
